@@ -99,7 +99,11 @@ def random_config(rng, kind, **force):
     if kind in ("GeneticAlgorithm", "SelfCGA", "PDPGA", "DifferentialEvolution", "jDE") and rng.random() < 0.2:
         cfg.update(intobj=(1 << 60) if rng.random() < 0.7 else -(1 << 61), scale=1.0, offset=0.0, opt_mode="none", buffer=False,
                    objective=rng.choice(["onemax", "plateau", "weighted", "neg"]) if kind not in ("DifferentialEvolution", "jDE") else "plateau")
+        if kind in ("DifferentialEvolution", "jDE") and cfg["intobj"] > 0 and rng.random() < 0.6:
+            cfg.update(uint=True, minimization=False)      # an unsigned array (sums over uint8 data): comparisons are exact, differences wrap
     cfg.update(force)
+    if cfg.get("uint") and cfg.get("minimization"):
+        cfg["uint"] = False          # -1 * <unsigned array> is not defined: the unsigned objective is for maximisation only
     return cfg
 
 
@@ -186,7 +190,7 @@ def run_trace(cfg):
     kind = cfg["kind"]
     off = cfg.get("offset", 0.0) if abs(cfg["scale"]) <= 2.0 and cfg["objective"] not in ("view", "nearties", "nearties45") else 0.0   # keep values exact
     obj = L.Objective(cfg["objective"], scale=cfg["scale"], offset=off, reuse_buffer=bool(cfg.get("buffer")),
-                      int_offset=cfg.get("intobj"))
+                      int_offset=cfg.get("intobj"), unsigned=bool(cfg.get("uint")))
     g2p = G2P(kind) if cfg["g2p"] else None
     snaps = []
     holder = {}
@@ -197,6 +201,7 @@ def run_trace(cfg):
         snaps.append(observe(o, obj, cfg))
         r = o.get_fittest()                       # a caller keeps every report it was given (history.append(opt.get_fittest()))
         kept.append((r, _report_ident(r)))
+        return len(snaps)                         # what a progress-bar style callback returns (truthy): not a stopping rule
     if kind in TREES and "_uniset" not in cfg:
         cfg["_uniset"] = make_uniset()
     opt, init = build(cfg, obj, g2p, cb, rng_init)
